@@ -314,6 +314,10 @@ def _check(ctx, run, flags=(), label="default"):
                 run.ob("R3", "Utest::run try #%d catch(%s) records before rethrowing%s" % (tries.index(t["id"]) + 1, h.get("caught"), sfx), urun.site, okb)
 
     # ---------------- R4 ----------------------------------------------------
+    # with -p a failure crosses a process boundary: the child's exit status must tell the parent about every failure the
+    # result recorded (also those a plugin added without going through the shell), the parent turns it into one failure
+    from .C11 import separate_process_rules
+    separate_process_rules(prog, run, "R4", "R4")
     isf = prog.fn("TestResult::isFailure")
     run.analysed(isf)
     getters = {"getFailureCount": "failureCount_", "getRunCount": "runCount_", "getIgnoredCount": "ignoredCount_", "getTestCount": "testCount_",
